@@ -5,6 +5,7 @@ package main
 import (
 	"fmt"
 
+	"github.com/NethermindEth/juno/blockchain"
 	"github.com/NethermindEth/juno/core"
 	"github.com/NethermindEth/juno/core/felt"
 	"github.com/NethermindEth/juno/db"
@@ -13,17 +14,22 @@ import (
 )
 
 // Torn reads. juno serves RPC reads while sync stores blocks. A historical reader holds no
-// snapshot; if ONE query makes several database accesses, a Store committing between two of them
-// can mix two states. This probe makes that interleaving deterministic and single-threaded: a
-// reader of block 0 is opened while block 0 is the head, and block 1 is stored from a hook that
-// fires just before the i-th database access of a single query, for every i until the query makes
-// no i-th access. The answer must be block 0's.
+// snapshot; if ONE query makes several database accesses, a commit between two of them can mix two
+// states. This probe makes that interleaving deterministic and single-threaded: a reader of block 0
+// is opened, and from a hook that fires just before the i-th database access of a single query
+//   - "store":      the next block is stored (reader opened while block 0 is the head),
+//   - "two-stores": the next two blocks are stored,
+//   - "revert":     the head is reverted (reader opened at head 2, block 2 goes away),
+// for every i until the query makes no i-th access. The answer must be block 0's.
+// One Sig per (backend, query kind, store|revert, access index): a torn read of another kind, or at
+// another access, is a different finding.
 func raceProbe(res *lib.Result, newState bool) {
 	kind := kindName(newState)
 	c0 := hx(&cairo0Fxs[0])
 	blocks := []string{
 		"sa 104 sk 2 1 sk 4 3 d 104 c000",
 		"sa 104 sk 2 2 sk 3 5 sk 4 0 n 104 1 r 104 c001 d 105 c002 sa 105 sk 2 9 c0 " + c0,
+		"sa 104 sk 2 7 sk 3 0 sk 4 9 n 104 2 r 104 c002 sa 105 sk 2 0 n 105 4",
 	}
 	g := lib.NewChainGen(lib.NewRNG(1), newState, lib.DefaultGenOptions())
 	for _, line := range blocks {
@@ -44,55 +50,86 @@ func raceProbe(res *lib.Result, newState bool) {
 		{Kind: "storage", Addr: a105, Slot: lib.F(2)}, {Kind: "classhash", Addr: a105}, {Kind: "nonce", Addr: a105},
 		{Kind: "class", Addr: &cairo0Fxs[0]},
 	}
-	for _, label := range []string{"num", "hash"} {
-		for _, q := range qs {
-			for i := 1; i <= 40; i++ {
-				fdb := newFaultDB(newMem())
-				bc := lib.NodeOn(fdb, g.Net, newState)
-				if err := lib.StoreOn(bc, g.Bundles[0]); err != nil {
-					res.Fatalf("torn-read probe (%s): store of block 0: %v", kind, err)
-					return
-				}
-				var r core.StateReader
-				var err error
-				if label == "num" {
-					r, _, err = bc.StateAtBlockNumber(0)
-				} else {
-					r, _, err = bc.StateAtBlockHash(g.Bundles[0].Block.Hash)
-				}
-				if err != nil {
-					res.Fatalf("torn-read probe (%s): reader of block 0: %v", kind, err)
-					return
-				}
-				fired := false
-				fdb.hook = func() {
-					fired = true
-					if err := lib.StoreOn(bc, g.Bundles[1]); err != nil {
-						res.Note("race probe: store inside the hook failed: %v", firstLine(err.Error()))
+	type action struct {
+		name   string
+		before int // blocks on the chain when the reader is opened
+		inside func(bc *blockchain.Blockchain) error
+	}
+	actions := []action{
+		{"store", 1, func(bc *blockchain.Blockchain) error { return lib.StoreOn(bc, g.Bundles[1]) }},
+		{"two-stores", 1, func(bc *blockchain.Blockchain) error {
+			if err := lib.StoreOn(bc, g.Bundles[1]); err != nil {
+				return err
+			}
+			return lib.StoreOn(bc, g.Bundles[2])
+		}},
+		{"revert", 3, func(bc *blockchain.Blockchain) error { return bc.RevertHead() }},
+	}
+	for _, act := range actions {
+		for _, label := range []string{"num", "hash"} {
+			for _, q := range qs {
+				for i := 1; i <= 40; i++ {
+					fdb := newFaultDB(newMem())
+					bc := lib.NodeOn(fdb, g.Net, newState)
+					for k := 0; k < act.before; k++ {
+						if err := lib.StoreOn(bc, g.Bundles[k]); err != nil {
+							res.Fatalf("torn-read probe (%s): store of block %d: %v", kind, k, err)
+							return
+						}
 					}
-				}
-				fdb.hookAt = i
-				got := readOne(r, q)
-				fdb.hookAt, fdb.hook = 0, nil
-				if !fired {
-					res.HitN(fmt.Sprintf("torn:%s:%s:db-accesses-per-query=%d", kind, q.Kind, i-1), 1)
-					break
-				}
-				want := expected(g.States[0], q, false)
-				res.Case(fmt.Sprintf("torn/%s/%s/%s/%v/%d", kind, label, q.Kind, q.Slot, i), true)
-				res.Hit("torn:store-committed-inside-a-query")
-				if !contains(want, got) {
-					qj := qjson(q)
-					qj["backend"], qj["view"], qj["n"], qj["store_before_db_access"], qj["got"], qj["want"] = kind, label, 0, i, got, want[0]
-					res.Violate(lib.Violation{Sig: kind + "-historical-read-torn-by-store-inside-the-query",
-						What: fmt.Sprintf("%s backend: reader of block 0 (%s) opened at head 0; block 1 committed just before database access #%d of ONE %s query: answer %s, block 0 gives %s",
-							kind, label, i, q.Kind, got, want[0]),
-						Replay: map[string]any{"blocks": blocks, "query": qj,
-							"how": "harness/cmd/c03/race.go: store blocks[0]; open the reader of block 0; store blocks[1] from a db hook before the given access of the query"}})
+					var r core.StateReader
+					var err error
+					if label == "num" {
+						r, _, err = bc.StateAtBlockNumber(0)
+					} else {
+						r, _, err = bc.StateAtBlockHash(g.Bundles[0].Block.Hash)
+					}
+					if err != nil {
+						res.Fatalf("torn-read probe (%s): reader of block 0: %v", kind, err)
+						return
+					}
+					fired := false
+					var inErr error
+					fdb.hook = func() {
+						fired = true
+						inErr = act.inside(bc)
+					}
+					fdb.hookAt = i
+					got := readOne(r, q)
+					fdb.hookAt, fdb.hook = 0, nil
+					if !fired {
+						res.HitN(fmt.Sprintf("torn:%s:%s:db-accesses-per-query=%d", kind, q.Kind, i-1), 1)
+						break
+					}
+					if inErr != nil {
+						// the interleaving did not happen: nothing was tested (never green, never counted)
+						res.Fatalf("torn-read probe (%s, %s inside a %s query): %v", kind, act.name, q.Kind, firstLine(inErr.Error()))
+						return
+					}
+					want := expected(g.States[0], q, false)
+					res.Case(fmt.Sprintf("torn/%s/%s/%s/%s/%v/%d", kind, act.name, label, q.Kind, q.Slot, i), true)
+					res.Hit("torn:" + act.name + "-committed-inside-a-query")
+					if !contains(want, got) {
+						qj := qjson(q)
+						qj["backend"], qj["view"], qj["n"], qj["before_db_access"], qj["got"], qj["want"], qj["inside"] = kind, label, 0, i, got, want[0], act.name
+						// (by-number and by-hash views share the reader once resolved; one and two stores are one cause)
+						res.Violate(lib.Violation{Sig: fmt.Sprintf("%s-%s-read-torn-by-%s-before-db-access-%d", kind, q.Kind, tornCause(act.name), i),
+							What: fmt.Sprintf("%s backend: reader of block 0 (%s) opened at head %d; %s committed just before database access #%d of ONE %s query: answer %s, block 0 gives %s",
+								kind, label, act.before-1, act.name, i, q.Kind, got, want[0]),
+							Replay: map[string]any{"blocks": blocks, "query": qj,
+								"how": "harness/cmd/c03/race.go: store the first `opened at head`+1 blocks; open the reader of block 0; perform the action from a db hook before the given access of the query"}})
+					}
 				}
 			}
 		}
 	}
+}
+
+func tornCause(action string) string {
+	if action == "two-stores" {
+		return "store"
+	}
+	return action
 }
 
 func newMem() db.KeyValueStore { return memory.New() }
